@@ -34,21 +34,29 @@ def copy_prog(name, rundir):
 
 
 def run_sync_programs(chk, thorough, sd):
+    run_stress_program(chk, thorough, "syncstress")
+
+
+def run_chan_programs(chk, thorough, sd):
+    run_stress_program(chk, thorough, "chanstress")
+
+
+def run_stress_program(chk, thorough, name):
     rd = chk.rd.path
-    d = copy_prog("syncstress", rd)
-    rst, rout, rerr = reference_output(d, rd, "syncstress")
+    d = copy_prog(name, rd)
+    rst, rout, rerr = reference_output(d, rd, name)
     if rst != 0 or "done" not in rout:
-        raise C.Undecided("reference run of syncstress failed: %s %s" % (rst, rerr[-500:]))
+        raise C.Undecided("reference run of %s failed: %s %s" % (name, rst, rerr[-500:]))
     configs = [("O0", "")] + ([("O2", ""), ("O0", "nogc")] if thorough else [])
     runs = 120 if thorough else 12
     total = 0
     for opt, tags in configs:
-        exe, out = llgo_exe(d, rd, "syncstress", opt, tags)
+        exe, out = llgo_exe(d, rd, name, opt, tags)
         if exe is None:
             if opt != "O0":
                 chk.cov.setdefault("skipped_configs", []).append("%s/%s: does not build here (%s)" % (opt, tags, out[-200:]))
                 continue
-            raise C.Undecided("llgo cannot build syncstress:\n" + out[-3000:])
+            raise C.Undecided("llgo cannot build %s:\n" % name + out[-3000:])
 
         def one(i):
             return C.run_exe(exe, timeout=120, merge=True)
@@ -59,11 +67,11 @@ def run_sync_programs(chk, thorough, sd):
             if st != 0 or so != rout:
                 bad = [l for l in so.splitlines() if l not in rout.splitlines()]
                 first = bad[0].split(":")[0] if bad else "status"
-                chk.reject("syncstress:%s:%s" % (opt + tags, first),
-                           "compiled sync/atomic/go-statement program deviates from the schedule-independent expected output "
+                chk.reject("%s:%s:%s" % (name, opt + tags, first),
+                           "compiled stress program deviates from the schedule-independent expected output "
                            "(status %s, differing lines %s, stderr %s)" % (st, bad[:3], se[-300:]),
                            {"config": opt + "/" + tags, "status": st, "stdout": so, "expected": rout, "stderr": se[-2000:]})
                 break
     chk.cov["compiled_program_runs"] = chk.cov.get("compiled_program_runs", 0) + total
     chk.cov["evaluations"] += total
-    chk.sample({"compiled_program": "syncstress", "expected_lines": rout.splitlines()[:4]})
+    chk.sample({"compiled_program": name, "expected_lines": rout.splitlines()[:4]})
